@@ -5,7 +5,7 @@ CONSTANTS
   MaxWakes = 1
   Horizon = 3
   WakeDelays = {0, 1}
-  RestoreMode = "poporder"
+  RestoreMode = "noseq"
 INVARIANTS BufferBounds TickDiscipline RestoredGuardSound NoLostAfterCut SeqFresh
 PROPERTY CutInvisible
 CHECK_DEADLOCK FALSE
